@@ -60,6 +60,7 @@ package main
 
 //@ func (*RoundRobinBackend).AddBackend
 //@   props C05 C19
+//@   event rrAdds: backendAddr(backend)
 //@   modifies rb.backends, mapof(rb.backendMap), bmAdds
 //@   ensures list: rb.backends == old(rb.backends) ++ seq1(backend)
 //@   ensures map: has(rb.backendMap, backendAddr(backend)) && rb.backendMap[backendAddr(backend)] == backend
@@ -68,6 +69,7 @@ package main
 
 //@ func (*RoundRobinBackend).RemoveBackend
 //@   props C05 C19
+//@   event rrRemoves: address
 //@   modifies rb.backends, mapof(rb.backendMap), closedB, bmRemoves
 //@   ensures absent: !old(has(rb.backendMap, address)) ==> rb.backends == old(rb.backends) && !has(rb.backendMap, address) && closedB == old(closedB) && bmRemoves == old(bmRemoves)
 //@   ensures mapdel: !has(rb.backendMap, address)
@@ -224,3 +226,90 @@ package main
 //@     invariant i > 0 && old(t.conn) != nil ==> len(wfail) > len(old(wfail))
 //@     invariant len(wfail) + len(dials) >= len(old(wfail)) + len(old(dials)) + i
 //@     invariant len(cbcalls) >= len(old(cbcalls)) && len(dialok) >= len(old(dialok)) && cbcalls[len(old(cbcalls)):] == dialok[len(old(dialok)):]
+
+// ---- name resolution feeding the rotation (C19) ----
+
+//@ func inStrArray
+//@   props C19
+//@   modifies nothing
+//@   ensures result == strIn(s, a)
+//@   loop 0:
+//@     invariant 0 <= $i && $i <= len(a)
+//@     invariant strIn(s, a) == strIn(s, a[$i:])
+
+//@ func strArraySub
+//@   props C19
+//@   modifies nothing
+//@   ensures result == seqSub(a1, a2)
+//@   loop 0:
+//@     invariant 0 <= $i && $i <= len(a1)
+//@     invariant r == seqSub(a1[:$i], a2)
+
+// a spawned notification is recorded as a pending atomic call (ghost nHost/nNew/nRemoved)
+//@ spawn (*DynamicHostResolver).notifyAddressChanged
+//@   modifies nHost, nNew, nRemoved
+//@   ensures nHost == old(nHost) ++ seq1(hostname) && nNew == old(nNew) ++ seq1(newAddrs) && nRemoved == old(nRemoved) ++ seq1(removedAddrs)
+
+//@ func (*DynamicHostResolver).addressResolved
+//@   props C19
+//@   requires has(r.hostIPs, hostname) ==> r.hostIPs[hostname] != nil && r.hostIPs[hostname].failed >= 0
+//@   modifies r.hostIPs[hostname].failed, r.hostIPs[hostname].addrs, nHost, nNew, nRemoved
+//@   ensures unknown-host: !has(r.hostIPs, hostname) ==> nHost == old(nHost) && nNew == old(nNew) && nRemoved == old(nRemoved)
+//@   ensures success-state: has(r.hostIPs, hostname) && err == nil ==> r.hostIPs[hostname].addrs == addrs && r.hostIPs[hostname].failed == 0
+//@   ensures success-notify: has(r.hostIPs, hostname) && err == nil && (len(seqSub(addrs, old(r.hostIPs[hostname].addrs))) > 0 || len(seqSub(old(r.hostIPs[hostname].addrs), addrs)) > 0) ==>
+//@        nHost == old(nHost) ++ seq1(hostname) && nNew == old(nNew) ++ seq1(seqSub(addrs, old(r.hostIPs[hostname].addrs))) && nRemoved == old(nRemoved) ++ seq1(seqSub(old(r.hostIPs[hostname].addrs), addrs))
+//@   ensures success-quiet: has(r.hostIPs, hostname) && err == nil && len(seqSub(addrs, old(r.hostIPs[hostname].addrs))) == 0 && len(seqSub(old(r.hostIPs[hostname].addrs), addrs)) == 0 ==>
+//@        nHost == old(nHost) && nNew == old(nNew) && nRemoved == old(nRemoved)
+//@   ensures failure-tolerated: has(r.hostIPs, hostname) && err != nil && !(old(r.hostIPs[hostname].failed) + 1 > 3 && len(old(r.hostIPs[hostname].addrs)) > 0) ==>
+//@        r.hostIPs[hostname].failed == old(r.hostIPs[hostname].failed) + 1 && r.hostIPs[hostname].addrs == old(r.hostIPs[hostname].addrs) && nHost == old(nHost) && nNew == old(nNew) && nRemoved == old(nRemoved)
+//@   ensures fourth-failure-empties: has(r.hostIPs, hostname) && err != nil && old(r.hostIPs[hostname].failed) + 1 > 3 && len(old(r.hostIPs[hostname].addrs)) > 0 ==>
+//@        len(r.hostIPs[hostname].addrs) == 0 && r.hostIPs[hostname].failed == 0 &&
+//@        nHost == old(nHost) ++ seq1(hostname) && len(nNew[len(nNew)-1]) == 0 && len(nNew) == len(old(nNew)) + 1 && nRemoved == old(nRemoved) ++ seq1(old(r.hostIPs[hostname].addrs))
+//@   ensures counter-bounded: has(r.hostIPs, hostname) && old(r.hostIPs[hostname].failed) <= 3 ==> r.hostIPs[hostname].failed <= 4 && (len(r.hostIPs[hostname].addrs) > 0 ==> r.hostIPs[hostname].failed <= 3)
+
+//@ func (*TCPBackend).GetAddress
+//@   props C19 C05
+//@   modifies nothing
+//@   ensures result == backendAddr(anyRef("*TCPBackend", t))
+
+//@ func (*UDPBackend).GetAddress
+//@   props C19 C05
+//@   modifies nothing
+//@   ensures result == backendAddr(anyRef("*UDPBackend", b))
+
+//@ func (*RoundRobinBackend).hostIPChanged
+//@   props C19
+//@   modifies rb.backends, mapof(rb.backendMap), closedB, bmAdds, bmRemoves, rrAdds, rrRemoves
+//@   ensures removes: rrRemoves == old(rrRemoves) ++ mapHostPort(removedIPs, port)
+//@   ensures adds-tcp: protocol == "tcp" ==> rrAdds == old(rrAdds) ++ mapHostPort(newIPs, port)
+//@   ensures adds-bounded: len(rrAdds) <= len(old(rrAdds)) + len(newIPs) && len(rrAdds) >= len(old(rrAdds))
+//@   ensures adds-other: protocol != "tcp" && protocol != "udp" ==> rrAdds == old(rrAdds)
+//@   loop 0:
+//@     invariant 0 <= $i && $i <= len(newIPs) && rrRemoves == old(rrRemoves)
+//@     invariant protocol == "tcp" ==> rrAdds == old(rrAdds) ++ mapHostPort(newIPs[:$i], port)
+//@     invariant len(rrAdds) <= len(old(rrAdds)) + $i && len(rrAdds) >= len(old(rrAdds))
+//@     invariant protocol != "tcp" && protocol != "udp" ==> rrAdds == old(rrAdds)
+//@   loop 1:
+//@     invariant 0 <= $i && $i <= len(removedIPs)
+//@     invariant rrRemoves == old(rrRemoves) ++ mapHostPort(removedIPs[:$i], port)
+
+// ---- the proxy's event loop: membership events update the address index (C19) ----
+// (the three message handlers are summarised by their static mod sets here; their own contracts follow below)
+//@ func (*Proxy).handleRawMessage
+//@   noinline
+//@ func (*Proxy).handleDialog
+//@   noinline
+//@ func (*Proxy).HandleMessage
+//@   noinline
+
+//@ func (*Proxy).receiveAndProcessMessage
+//@   props C19
+//@   loop 0:
+//@     step backend-added: $case == 1 && backendChangeEvent.action == "add" ==>
+//@          has(p.backends, backendAddr(backend)) && p.backends[backendAddr(backend)].backend == backend && p.backends[backendAddr(backend)].parent == backendChangeEvent.parent
+//@          && (forall k string :: k != backendAddr(backend) ==> has(p.backends, k) == prev(has(p.backends, k)) && p.backends[k] == prev(p.backends[k]))
+//@     step backend-removed: $case == 1 && backendChangeEvent.action == "remove" ==>
+//@          !has(p.backends, backendAddr(backend))
+//@          && (forall k string :: k != backendAddr(backend) ==> has(p.backends, k) == prev(has(p.backends, k)) && p.backends[k] == prev(p.backends[k]))
+//@     step other-action-ignored: $case == 1 && backendChangeEvent.action != "add" && backendChangeEvent.action != "remove" ==>
+//@          (forall k string :: has(p.backends, k) == prev(has(p.backends, k)) && p.backends[k] == prev(p.backends[k]))
